@@ -5,26 +5,26 @@
 import os, sys, json, re, subprocess
 V = os.path.dirname(os.path.dirname(os.path.abspath(__file__)))
 CLAUSE = {
- 'C01': 'the determinism clause (the emitted sequence is a function of the ruleset and the flags only: not of PYTHONHASHSEED, dict/set/os.listdir order, earlier grammars loaded in the process, the locale ...) or the "probability attached to a group equals that product" clause',
- 'C02': 'the clause about a base structure that repeats a variable type (A3A3, D2O1D2 ...) or grammars where several parents tie exactly',
- 'C03': 'passwords with spaces, non-ASCII letters, digits next to symbols, or the "probabilities of all emitted guesses sum to 1" clause',
- 'C04': 'the "number of guesses the guesser reports for the group equals the number of lines it wrote" clause or the Markov pre-terminal = OMEN level clause',
- 'C05': 'years, keyboard walks, "other" segments, or the "counters the trainer accumulates are exactly the tallies of these segments" clause',
- 'C06': 'the ordering clause (most to least probable), the Markov pseudo-count clause, or the byte-identical determinism clause',
- 'C07': 'the OMEN loaders, the scorer loader, non-BMP characters, or the "file lists in config name exactly the files that exist" clause',
- 'C08': 'the UUID refusal clause, the "nothing more probable than the saved position" clause, or histories with three or more quit/resume cycles',
- 'C09': 'the "writes nothing but guesses to standard output" clause on unusual paths (errors, warnings, odd flags), or --limit inside a Markov level',
- 'C10': 'the "then reports exhaustion" clause or the dependence on which levels were generated before',
- 'C11': 'differences between the three implementations in alphabet handling, encoding, n-gram size or length limits',
- 'C12': 'stdin closed / at EOF / not a terminal, help requests, or a quit arriving while a save is in progress',
- 'C13': 'the "score depends only on the string and the ruleset" clause or the e-mail / website classification clause',
- 'C14': 'the "whether or not the ruleset contains a Markov structure at all" clause or the "--all_lower ... and nothing else changes" clause',
- 'C15': 'the "later quit/resume cycles do not replay that remainder again" clause or a quit at the very first / very last string of a level',
- 'C16': 'the honeyword mode (exactly N words, membership) or the reproducibility clause of random-walk mode',
- 'C17': 'the "writes the same list to a file as to standard output" clause or the "(type, value, capitalisation) once" clause',
- 'C18': 'the "saved probability is the fraction of training passwords at that level divided by that keyspace" clause',
- 'C19': 'the "undecodable bytes are skipped and counted without aborting" clause or the "all three training passes see the same password sequence" clause',
- 'C20': 'the "no other file touched" clause, the terminal-set filter, or the "every non-Markov guess has a length within the requested bounds" clause',
+ 'C01': 'rarely used paths: the PRINCE base-structure folder, --all_lower, rulesets whose files were written by another tool of the project (edit_rules.py) or with unusual-but-legal number formats / line endings / trailing blank lines',
+ 'C02': 'grammars with very many base structures or very long structures (10+ variables), single-entry variables, or structures that are prefixes of one another',
+ 'C03': 'trainer option combinations (--alphabet, --ngram, --coverage, --multiword, --prefixcount, --save_sensitive, legacy encodings) and passwords at the length limits of the detectors',
+ 'C04': 'capitalisation masks on words containing non-letters or non-ASCII letters, several alpha variables in one structure, or the --limit argument cutting an expansion short',
+ 'C05': 'the interaction of two detectors on one password (keyboard walk next to a year, context string inside a multiword, e-mail followed by digits ...) or the length limits (min/max) of a detector',
+ 'C06': 'the config.ini fields, the PRINCE grammar, capitalisation mask lists, or a training list with exactly one password / one structure',
+ 'C07': 'the configuration file (encoding, uuid, file lists) as read by each tool, or rulesets copied / renamed / edited by edit_rules.py',
+ 'C08': 'the save file itself (what is written, how it is parsed back: number formats, very small probabilities, locale, interrupted writes) or --load combined with other flags',
+ 'C09': 'the honeyword / random-walk modes, --limit 0 or negative or huge, or the interplay of --limit with --skip_brute / --all_lower',
+ 'C10': 'models with empty levels, a single initial n-gram, maximum length equal to the n-gram size, or very many strings at one level',
+ 'C11': 'characters outside the learned alphabet, strings shorter than the n-gram size, or the smoothing / level-adjust arithmetic at the boundaries 0 and 10',
+ 'C12': 'what happens at start-up and shut-down of the keyboard thread (very short runs, runs that finish before the thread starts, exceptions in the generator)',
+ 'C13': 'the scorer command-line paths (input file encodings, --prefixcount-like options, output formats) or strings at the length limits of the detectors',
+ 'C14': 'the two flags combined with each other, with --load, with the PRINCE folder, or with rulesets in which the Markov structure is the only / the first / the last one',
+ 'C15': 'three or more quit/resume cycles that mix quits inside levels and outside, sessions resumed with another session name, or .sav/.omn files left over from an earlier session',
+ 'C16': 'the --limit argument in honeyword mode, rulesets with a Markov structure and --skip_brute absent, or single-entry tables',
+ 'C17': 'the e-mail provider / website host entries of the PRINCE grammar, --all_lower, or --size larger than / equal to the list',
+ 'C18': 'levels above 10, lengths at the maximum, or the relation between omen_pws_per_level.txt and pcfg_omen_prob.txt',
+ 'C19': 'line endings (CRLF, lone CR, no final newline), a byte-order mark, count prefixes with unusual spacing / zero / huge counts, or encodings other than UTF-8',
+ 'C20': 'several filters combined, labels with multi-digit lengths, rulesets without some directories, or running the editor twice in a row',
 }
 def used():
     out = {}
